@@ -28,8 +28,8 @@ Proved here (every grid, agent mix, overlap table, attack mapping, tape, history
 * **C02, the two findings of this class (repaired)** `reach_R1_witness_processed`, `reach_R2_witness_processed`: the
   model used to carry two `KeyError` branches for in-space actions (proved on these witnesses as
   `reach_step_raises_for_in_space_actions` / `reach_killed_entity_raises`): a runner standing on the target's cell after
-  `reset` and killed in the attack loop of the same step reached `grid.remove` (R1, repaired ad16495), and a killed entity
-  without reward entry was charged (R2 = C02-E3 in this file, repaired d65ea34).  The witnesses are regression theorems
+  `reset` and killed in the attack loop of the same step reached `grid.remove` (R1, repaired 856b778), and a killed entity
+  without reward entry was charged (R2 = C02-E3 in this file, repaired c7ca573).  The witnesses are regression theorems
   now: the same states and actions are processed.
 
 * **C03 after steps** `reach_reachable_WInvWeak`, `reach_simIface_reachable`: every world reached by any history of
@@ -224,7 +224,7 @@ def exRTOps : List Ex.EOp := [.reset [.health, .position .position {}] [], .step
 /-- the state right after `reset` -/
 def exRTState : Ex.St := (RT.runOps exRTCfg { w := exRTWorld } (exRTOps.take 1)).2
 
-/-- **regression for finding R1 (repaired, ad16495)**: in the state right after `reset` — which satisfies the whole
+/-- **regression for finding R1 (repaired, 856b778)**: in the state right after `reset` — which satisfies the whole
 invariant, everybody alive, a reward entry for everybody — the action dict `exRTActs` (a point of the declared action
 space for each of the three agents, all learning, all active, distinct keys) used to make `step` raise `KeyError`: the
 target kills runner 0 on its own cell in the attack loop (the actor takes the dead runner off the grid), and the move loop
@@ -266,7 +266,7 @@ example :
     tr.map (fun e => e.w.WInv) = [true, false, true] := by
   decide +kernel
 
-/-- **regression for finding R2 (repaired, d65ea34)**: with a barrier's encoding in the attack mapping, the target kills
+/-- **regression for finding R2 (repaired, c7ca573)**: with a barrier's encoding in the attack mapping, the target kills
 the barrier next to it; `self.rewards[attacked_agent.id] -= 1` used to raise `KeyError` — the barrier is not an `Agent`
 and has no reward entry (finding C02-E3 of `TeamBattleSim`, c275832, in this class).  With the guard
 `if is_agent(attacked_agent)` the step returns and the target collects +1. -/
